@@ -1,6 +1,6 @@
 (* Wire entry points of the C09 model (global adaptive 1D trapezoidal rule, moment checker). *)
 From Coq Require Import ZArith List Bool QArith Qcanon.
-From SG Require Import Base.Sx Base.QcUtil Model.Trap.
+From SG Require Import Base.Sx Base.QcUtil Model.Trap Model.Basis Model.LagrangeQuad Model.SimpsonGlobal.
 Import ListNotations.
 Open Scope Z_scope.
 
@@ -33,7 +33,11 @@ Fixpoint prodQ (l : list Qc) : Qc := match l with [] => 1%Qc | x :: r => (x * pr
 (* sub 0: (mb a b (x ...))                         -> (1 (w ...)) | (0)      compute_weights
    sub 1: (boundary mb a b (x ...) (level ...))    -> (1 coords weights levels numPoints) | (0)   set_grid, one dimension
    sub 2: ((p ...) (w ...) a b (tol ...))           -> (ok (residual ...) nonneg)   verified checker moments_ok
-   sub 3: (boundary mb ((a b xs levels coeffs) ...)) -> (1 value) | (0)       tensor rule applied to a product of polynomials *)
+   sub 3: (boundary mb ((a b xs levels coeffs) ...)) -> (1 value) | (0)       tensor rule applied to a product of polynomials
+   sub 4: (p boundary mb a b (x ...) (level ...))   -> (1 (w ...)) | (0)      GlobalLagrangeGrid: effective nodal weights
+                                                                              (integrate of the one-hot vectors: knot selection, exact
+                                                                              hierarchisation, formal integrals of the basis functions)
+   sub 5: ((x ...))                                 -> (1 (w ...)) | (0)      GlobalSimpsonGrid weights, odd number of points *)
 Definition entry_C09 (sub : Z) (arg : sx) : sx :=
   match sub, arg with
   | 0, Lv [mb; a; b; xs] =>
@@ -62,6 +66,17 @@ Definition entry_C09 (sub : Z) (arg : sx) : sx :=
       | None => Lv [Zv 0]
       end
     | _, _ => sx_err 1
+    end
+  | 4, Lv [p; bd; mb; a; b; xs; lv] =>
+    match get_Z p, get_bool bd, get_bool mb, get_Qc a, get_Qc b, get_LQc xs, get_LZ lv with
+    | Some p, Some bd, Some mb, Some a, Some b, Some xs, Some lv =>
+      of_opt_weights (lagrange_nodal_weights (Z.to_nat p) bd mb a b xs (map Z.to_nat lv))
+    | _, _, _, _, _, _, _ => sx_err 1
+    end
+  | 5, Lv [xs] =>
+    match get_LQc xs with
+    | Some xs => of_opt_weights (simpson_weights xs)
+    | None => sx_err 1
     end
   | _, _ => sx_err 0
   end.
